@@ -301,7 +301,8 @@ class FunctionVC(Executor):
         except (ImportError, SyntaxError):
             pass
         name = key.split(":")[1]
-        s.trace.append(("call", name, dict(bound)))
+        call_rec = dict(bound)
+        s.trace.append(("call", name, call_rec))
         cs = St(list(s.pc), dict(bound), s.heap, [], list(s.fresh))
         saved_env0, saved_heap0 = self.env0, self.heap0
         pre_heap = s.heap
@@ -403,6 +404,7 @@ class FunctionVC(Executor):
         s.pc = post.pc
         s.fresh = post.fresh
         s.env["_ret_" + name.split(".")[-1]] = result  # ghost: result of the most recent call of this callee
+        call_rec["_result"] = result  # trace predicates may relate a later call's argument to this call's result
         yield s, result
 
     def eval_pure(self, text, s):
